@@ -140,9 +140,9 @@ Lemma c15_event_model s o s' out :
 Proof.
   intros GI Cr Hc Hnc E GI'. unfold c15_event. cbn [ge_obs ge_op ge_out].
   rewrite routes_spec_obs. cbn [andb].
-  destruct o as [op fails oracle|e b|n mo|up e|ctx|]; cbn [gstep] in E.
+  destruct o as [op fails oracle readys|e b|n mo|up e|ctx|]; cbn [gstep] in E.
   - destruct (og_err out =? 0) eqn:Eerr; [|reflexivity]. apply Z.eqb_eq in Eerr.
-    destruct (gupdate_ok _ _ _ _ _ _ GI E Eerr) as [_ [_ U]].
+    destruct (gupdate_ok _ _ _ _ _ _ _ GI E Eerr) as [_ [_ U]].
     assert (Hc' : g_closed s' = false) by (rewrite (uo_closed _ _ _ _ U); exact Hc).
     rewrite (upd_pools_ok_model s op s' out GI GI' Hc' U).
     rewrite (upd_mes_ok_model s op s' out GI' U), (synced_ok_model s op s' out GI' U). reflexivity.
@@ -155,14 +155,14 @@ Proof.
 Qed.
 
 (* ------------------------------------------------------------------ C16 *)
-Lemma c16_update_model (fst1 : bool) s o fails oracle s' out :
+Lemma c16_update_model (fst1 : bool) s o fails oracle readys s' out :
   GInv s -> g_closed s = false -> (fst1 = true -> s = ginit o) ->
-  gupdate s o fails oracle = (s', out) -> GInv s' ->
+  gupdate s o fails oracle readys = (s', out) -> GInv s' ->
   c16_event fst1 (if fst1 then obs_none else gobserve s)
-            (mkGE (GUpdate o fails oracle) out (gobserve s')) = true.
+            (mkGE (GUpdate o fails oracle readys) out (gobserve s')) = true.
 Proof.
   intros GI Hc Hfirst E GI'. unfold c16_event. cbn [ge_obs ge_op ge_out].
-  destruct (update_err_spec _ _ _ _ _ _ E) as [Herr _].
+  destruct (update_err_spec _ _ _ _ _ _ _ E) as [Herr _].
   assert (Hexp : og_err out =? expected_err (if fst1 then obs_none else gobserve s) o fails = true).
   { destruct fst1.
     - rewrite (Hfirst eq_refl) in Herr. rewrite Herr. unfold expected_err. rewrite pool_eps_obs. cbn.
@@ -170,11 +170,11 @@ Proof.
     - rewrite Herr. apply Z.eqb_refl. }
   rewrite Hexp, orb_true_r. cbn [andb].
   destruct (og_err out =? 0) eqn:E0.
-  - apply Z.eqb_eq in E0. destruct (gupdate_ok _ _ _ _ _ _ GI E E0) as [_ [Cr' U]].
+  - apply Z.eqb_eq in E0. destruct (gupdate_ok _ _ _ _ _ _ _ GI E E0) as [_ [Cr' U]].
     apply routes_live_obs; auto. rewrite (uo_closed _ _ _ _ U). exact Hc.
   - apply Z.eqb_neq in E0. destruct fst1.
-    + rewrite (Hfirst eq_refl) in E. apply (failed_new_releases_all_proof _ _ _ _ _ E E0).
-    + destruct (failed_update_identity_proof _ _ _ _ _ _ E E0) as [_ [_ [_ [_ [Ho _]]]]].
+    + rewrite (Hfirst eq_refl) in E. apply (failed_new_releases_all_proof _ _ _ _ _ _ E E0).
+    + destruct (failed_update_identity_proof _ _ _ _ _ _ _ E E0) as [_ [_ [_ [_ [Ho _]]]]].
       rewrite Ho. apply gobs_eqb_refl.
 Qed.
 
@@ -195,12 +195,12 @@ Lemma gstep_inv s o s' out :
   g_dials s' = (g_dials s + N.of_nat (length (og_dials out)))%N /\
   g_closed s' = (g_closed s || is_close o)%bool.
 Proof.
-  intros GI Cr E. destruct o as [op fails oracle|e b|n mo|up e|ctx|]; cbn [gstep] in E.
+  intros GI Cr E. destruct o as [op fails oracle readys|e b|n mo|up e|ctx|]; cbn [gstep] in E.
   - destruct (Z.eq_dec (og_err out) 0) as [E0|E0].
-    + destruct (gupdate_ok _ _ _ _ _ _ GI E E0) as [GI' [Cr' U]].
+    + destruct (gupdate_ok _ _ _ _ _ _ _ GI E E0) as [GI' [Cr' U]].
       split; auto. split; auto. split; [apply U|]. rewrite (uo_closed _ _ _ _ U).
       cbn. rewrite orb_false_r. reflexivity.
-    + destruct (failed_update_identity_proof _ _ _ _ _ _ E E0) as [Hm [Hp [Hd [Hcl [_ Hn]]]]].
+    + destruct (failed_update_identity_proof _ _ _ _ _ _ _ E E0) as [Hm [Hp [Hd [Hcl [_ Hn]]]]].
       split; [|split; [|split]].
       * destruct GI as [G1 G2 G3 G4 G5]. constructor; rewrite ?Hm, ?Hp, ?Hd, ?Hcl; auto.
       * unfold Created. rewrite Hm. exact Cr.
@@ -229,8 +229,8 @@ Lemma c16_event_model s o s' out :
   c16_event false (gobserve s) (mkGE o out (gobserve s')) = true.
 Proof.
   intros GI Cr Hc E. destruct (gstep_inv _ _ _ _ GI Cr E) as [GI' [Cr' [_ Hcl]]].
-  destruct o as [op fails oracle|e b|n mo|up e|ctx|].
-  - cbn [gstep] in E. apply (c16_update_model false s op fails oracle s' out GI Hc (fun H => False_ind _ (Bool.diff_false_true H)) E GI').
+  destruct o as [op fails oracle readys|e b|n mo|up e|ctx|].
+  - cbn [gstep] in E. apply (c16_update_model false s op fails oracle readys s' out GI Hc (fun H => False_ind _ (Bool.diff_false_true H)) E GI').
   - rewrite Hc in Hcl. cbn in Hcl. cbn [gstep] in E. injection E as <- <-.
     unfold c16_event. cbn [ge_op ge_out ge_obs og_err]. cbn [Z.eqb andb].
     apply routes_live_obs; auto.
@@ -270,18 +270,18 @@ Proof.
   apply (c16_event_model s o s' out GI Cr Hc E).
 Qed.
 
-Lemma first_update o fails oracle s1 out :
-  gupdate (ginit o) o fails oracle = (s1, out) ->
+Lemma first_update o fails oracle readys s1 out :
+  gupdate (ginit o) o fails oracle readys = (s1, out) ->
   GInv s1 /\ g_closed s1 = false /\
   g_dials s1 = N.of_nat (length (og_dials out)) /\
   (og_err out = 0 -> Created s1).
 Proof.
   intros E. pose proof (GInv_init o) as GI0.
   destruct (Z.eq_dec (og_err out) 0) as [E0|E0].
-  - destruct (gupdate_ok _ _ _ _ _ _ GI0 E E0) as [GI' [Cr' U]].
+  - destruct (gupdate_ok _ _ _ _ _ _ _ GI0 E E0) as [GI' [Cr' U]].
     split; auto. split; [rewrite (uo_closed _ _ _ _ U); reflexivity|].
     split; [rewrite (uo_dials _ _ _ _ U); reflexivity|auto].
-  - destruct (failed_update_identity_proof _ _ _ _ _ _ E E0) as [Hm [Hp [Hd [Hcl [_ Hn]]]]].
+  - destruct (failed_update_identity_proof _ _ _ _ _ _ _ E E0) as [Hm [Hp [Hd [Hcl [_ Hn]]]]].
     split; [|split; [|split]].
     + destruct GI0 as [G1 G2 G3 G4 G5]. constructor; rewrite ?Hm, ?Hp, ?Hd, ?Hcl; auto.
     + rewrite Hcl. reflexivity.
@@ -289,18 +289,18 @@ Proof.
     + intros; contradiction.
 Qed.
 
-Theorem C15_holds_proof : forall o fails oracle ops, C15_ok (gtrace o fails oracle ops) = true.
+Theorem C15_holds_proof : forall o fails oracle readys ops, C15_ok (gtrace o fails oracle readys ops) = true.
 Proof.
-  intros o fails oracle ops. unfold C15_ok, gtrace.
-  destruct (gupdate (ginit o) o fails oracle) as [s1 out] eqn:E.
-  destruct (first_update _ _ _ _ _ E) as [GI1 [Hc1 [Hd1 Cr1]]].
+  intros o fails oracle readys ops. unfold C15_ok, gtrace.
+  destruct (gupdate (ginit o) o fails oracle readys) as [s1 out] eqn:E.
+  destruct (first_update _ _ _ _ _ _ E) as [GI1 [Hc1 [Hd1 Cr1]]].
   cbn [c15_from ge_op ge_out ge_obs is_close orb].
   apply andb_true_intro. split.
   - (* the construction event: checked against the observation of "no object" *)
     unfold c15_event. cbn [ge_obs ge_op ge_out].
     rewrite routes_spec_obs. cbn [andb].
     destruct (og_err out =? 0) eqn:Eerr; [|reflexivity]. apply Z.eqb_eq in Eerr.
-    destruct (gupdate_ok _ _ _ _ _ _ (GInv_init o) E Eerr) as [_ [_ U]].
+    destruct (gupdate_ok _ _ _ _ _ _ _ (GInv_init o) E Eerr) as [_ [_ U]].
     rewrite (upd_pools_ok_ext 0%N obs_none (gobserve (ginit o)) (gobserve s1) o (og_dials out) eq_refl).
     change 0%N with (g_dials (ginit o)) at 1.
     rewrite (upd_pools_ok_model (ginit o) o s1 out (GInv_init o) GI1 Hc1 U).
@@ -311,14 +311,14 @@ Proof.
     rewrite N.add_0_l. exact H.
 Qed.
 
-Theorem C16_holds_proof : forall o fails oracle ops, C16_ok (gtrace o fails oracle ops) = true.
+Theorem C16_holds_proof : forall o fails oracle readys ops, C16_ok (gtrace o fails oracle readys ops) = true.
 Proof.
-  intros o fails oracle ops. unfold C16_ok, gtrace.
-  destruct (gupdate (ginit o) o fails oracle) as [s1 out] eqn:E.
-  destruct (first_update _ _ _ _ _ E) as [GI1 [Hc1 [Hd1 Cr1]]].
+  intros o fails oracle readys ops. unfold C16_ok, gtrace.
+  destruct (gupdate (ginit o) o fails oracle readys) as [s1 out] eqn:E.
+  destruct (first_update _ _ _ _ _ _ E) as [GI1 [Hc1 [Hd1 Cr1]]].
   cbn [c16_from ge_op ge_out ge_obs is_close orb].
   apply andb_true_intro. split.
-  - apply (c16_update_model true (ginit o) o fails oracle s1 out (GInv_init o) eq_refl (fun _ => eq_refl) E GI1).
+  - apply (c16_update_model true (ginit o) o fails oracle readys s1 out (GInv_init o) eq_refl (fun _ => eq_refl) E GI1).
   - destruct (og_err out =? 0) eqn:Eerr; [|reflexivity]. apply Z.eqb_eq in Eerr.
     pose proof (c16_from_model ops s1 GI1 (Cr1 Eerr)) as H. rewrite Hc1 in H. exact H.
 Qed.
@@ -334,25 +334,25 @@ Qed.
 
 (* the states reached by any history: construction, then any operations *)
 Definition reachable (s : gst) : Prop :=
-  exists o fails oracle ops, s = gtrace_state o fails oracle ops.
+  exists o fails oracle readys ops, s = gtrace_state o fails oracle readys ops.
 
 Lemma reachable_inv s : reachable s -> GInv s /\ (Created s \/ (g_mes s = [] /\ g_pools s = [])).
 Proof.
-  intros [o [fails [oracle [ops ->]]]]. unfold gtrace_state.
-  destruct (gupdate (ginit o) o fails oracle) as [s1 out] eqn:E.
-  destruct (first_update _ _ _ _ _ E) as [GI1 [Hc1 [Hd1 Cr1]]].
+  intros [o [fails [oracle [readys [ops ->]]]]]. unfold gtrace_state.
+  destruct (gupdate (ginit o) o fails oracle readys) as [s1 out] eqn:E.
+  destruct (first_update _ _ _ _ _ _ E) as [GI1 [Hc1 [Hd1 Cr1]]].
   destruct (og_err out =? 0) eqn:E0.
   - apply Z.eqb_eq in E0. destruct (grun_state_inv ops s1 GI1 (Cr1 E0)) as [A B]. auto.
   - apply Z.eqb_neq in E0. split; auto. right.
-    destruct (failed_new_releases_all_proof _ _ _ _ _ E E0) as [A [B _]]. auto.
+    destruct (failed_new_releases_all_proof _ _ _ _ _ _ E E0) as [A [B _]]. auto.
 Qed.
 
 Lemma route_total_proof s ctx : reachable s -> Created s ->
   exists e id op, groute s ctx = RPool e id op /\ (g_closed s = false -> op = true).
 Proof. intros R Cr. apply route_total_state; auto. apply reachable_inv. exact R. Qed.
 
-Lemma update_pools_proof s o fails oracle s' out :
-  reachable s -> gupdate s o fails oracle = (s', out) -> og_err out = 0 ->
+Lemma update_pools_proof s o fails oracle readys s' out :
+  reachable s -> gupdate s o fails oracle readys = (s', out) -> og_err out = 0 ->
   (* exactly one pool per distinct endpoint mentioned *)
   (forall e, In e (map fst (g_pools s')) <-> In e (mentioned o)) /\ NoDup (map fst (g_pools s')) /\
   (* kept pools are the same objects and were not dialled; the others are new, open, monitored *)
@@ -370,19 +370,19 @@ Lemma update_pools_proof s o fails oracle s' out :
      ob_census (gobserve s') = Z.of_nat (length (g_pools s'))).
 Proof.
   intros R E E0. destruct (reachable_inv s R) as [GI _].
-  destruct (gupdate_ok _ _ _ _ _ _ GI E E0) as [GI' [_ U]].
+  destruct (gupdate_ok _ _ _ _ _ _ _ GI E E0) as [GI' [_ U]].
   split; [apply U|]. split; [apply GI'|]. split; [apply U|].
   split; [split; [apply U|split; apply U]|].
   intros Hc. apply all_open_obs; auto. rewrite (uo_closed _ _ _ _ U). exact Hc.
 Qed.
 
-Lemma update_status_synced_proof s o fails oracle s' out :
-  reachable s -> gupdate s o fails oracle = (s', out) -> og_err out = 0 ->
+Lemma update_status_synced_proof s o fails oracle readys s' out :
+  reachable s -> gupdate s o fails oracle readys = (s', out) -> og_err out = 0 ->
   forall n m e p, In (n, m) (g_mes s') -> In e (keys m) -> In (e, p) (g_pools s') ->
     availN m e = p_ready p.
 Proof.
   intros R E E0. destruct (reachable_inv s R) as [GI _].
-  destruct (gupdate_ok _ _ _ _ _ _ GI E E0) as [_ [_ U]]. apply U.
+  destruct (gupdate_ok _ _ _ _ _ _ _ GI E E0) as [_ [_ U]]. apply U.
 Qed.
 
 Lemma follows_connectivity_proof s e b p :
@@ -396,7 +396,7 @@ Proof.
   destruct (D1 n m' Hin) as [m [_ [K F]]]. rewrite K in He. rewrite (F e He), N.eqb_refl. reflexivity.
 Qed.
 
-Lemma update_error_cases_proof s o fails oracle s' out :
-  gupdate s o fails oracle = (s', out) ->
+Lemma update_error_cases_proof s o fails oracle readys s' out :
+  gupdate s o fails oracle readys = (s', out) ->
   og_err out = expected_err (gobserve s) o fails.
-Proof. intros E. apply (update_err_spec _ _ _ _ _ _ E). Qed.
+Proof. intros E. apply (update_err_spec _ _ _ _ _ _ _ E). Qed.
